@@ -1,20 +1,22 @@
 package main
 
-// In-memory stand-in for the IPFS node.  The library only ever calls ipfs.Dag().Add/Get (and
-// Pin() when asked to pin, which the harness never does), so a struct that embeds a nil
-// coreiface.CoreAPI and overrides Dag() is a sufficient store.
+// In-memory stand-in for the IPFS node.  The library only ever calls ipfs.Dag().Add/Get and, when
+// asked to pin, ipfs.Pin().Add, so a struct that embeds a nil coreiface.CoreAPI and overrides Dag()
+// and Pin() is a sufficient store.
 
 import (
 	"context"
 	"fmt"
 	"sync"
 
+	"github.com/ipfs/boxo/path"
 	blocks "github.com/ipfs/go-block-format"
 	"github.com/ipfs/go-cid"
 	cbornode "github.com/ipfs/go-ipld-cbor"
 	ipld "github.com/ipfs/go-ipld-format"
 	dag "github.com/ipfs/go-merkledag"
 	coreiface "github.com/ipfs/kubo/core/coreiface"
+	"github.com/ipfs/kubo/core/coreiface/options"
 )
 
 type faultKind int
@@ -34,6 +36,9 @@ type memDag struct {
 	gets    []cid.Cid // every Get call, in call order
 	removed []cid.Cid // every Remove call
 	fault   map[cid.Cid]faultKind
+	failAdd bool      // while set, Add stores nothing and returns an error (store outage)
+	refused []cid.Cid // blocks whose Add was refused because of failAdd
+	pins    []cid.Cid // every Pin().Add call whose block is in the store
 	// onAdd is called (outside the lock) after a block was stored
 	onAdd func(c cid.Cid)
 	// gate, when set, is called by Get before it answers; it may block (forced schedules)
@@ -46,6 +51,11 @@ func newMemDag() *memDag {
 
 func (m *memDag) Add(ctx context.Context, n ipld.Node) error {
 	m.mu.Lock()
+	if m.failAdd {
+		m.refused = append(m.refused, n.Cid())
+		m.mu.Unlock()
+		return fmt.Errorf("injected write failure for %s", n.Cid())
+	}
 	if _, ok := m.blocks[n.Cid()]; !ok {
 		m.order = append(m.order, n.Cid())
 	}
@@ -95,6 +105,7 @@ func (m *memDag) resetLogs() {
 	defer m.mu.Unlock()
 	m.gets = nil
 	m.writes = nil
+	m.refused = nil
 }
 
 func (m *memDag) Get(ctx context.Context, c cid.Cid) (ipld.Node, error) {
@@ -176,6 +187,29 @@ type memAPI struct {
 }
 
 func (a *memAPI) Dag() coreiface.APIDagService { return a.d }
+func (a *memAPI) Pin() coreiface.PinAPI        { return &memPin{d: a.d} }
+
+// memPin: pinning a block that is in the store succeeds, pinning an absent block fails (as a node
+// that cannot fetch it would); everything else is unused by go-ipfs-log
+type memPin struct {
+	coreiface.PinAPI
+	d *memDag
+}
+
+func (p *memPin) Add(ctx context.Context, pth path.Path, _ ...options.PinAddOption) error {
+	ip, err := path.NewImmutablePath(pth)
+	if err != nil {
+		return err
+	}
+	c := ip.RootCid()
+	p.d.mu.Lock()
+	defer p.d.mu.Unlock()
+	if _, ok := p.d.blocks[c]; !ok {
+		return fmt.Errorf("cannot pin %s: block not found", c)
+	}
+	p.d.pins = append(p.d.pins, c)
+	return nil
+}
 
 func newAPI() (*memAPI, *memDag) {
 	d := newMemDag()
